@@ -222,7 +222,18 @@ func runHarness(p *Program, name string, o RunOpts) *HarnessResult {
 				res.Paths++
 				res.Ends[end.kind.String()]++
 				if end.kind == endUnsupported || end.kind == endBudget || end.kind == endEngine {
-					res.Incon = appendCapped(res.Incon, end.kind.String()+": "+end.msg)
+					msg := end.kind.String() + ": " + end.msg
+					if end.kind == endBudget && len(res.Incon) < 3 {
+						msg += fmt.Sprintf(" picks=%v", ex.picks)
+						if os.Getenv("GSE_SHOW") != "" {
+							for i, c := range ex.pc {
+								if i < 12 {
+									msg += " | " + ts.Show(c)
+								}
+							}
+						}
+					}
+					res.Incon = appendCapped(res.Incon, msg)
 				}
 				if end.kind == endBlocked && !strings.HasPrefix(end.msg, "expected") {
 					res.Counters["blocked: "+end.msg]++
@@ -317,7 +328,7 @@ func newExec(p *Program, ts *TermStore, sols []*Solver, harness string, prefix [
 		inputSeen: map[string]bool{}, maxSteps: o.maxSteps, reached: map[string]bool{}, asserted: map[string]int{},
 		fnEntered: map[*ssa.Function]bool{}, finfo: map[*ssa.Function]*fnInfo{}, icept: map[*ssa.Function]interceptFn{},
 		picks: map[string]uint64{}, counters: map[string]int{}, obsTerms: map[string]*Term{}, minfo: map[*ssa.Function]*mergeInfo{},
-		noMerge: os.Getenv("GSE_NOMERGE") != "", qsites: os.Getenv("GSE_QSITES") != "",
+		noMerge: os.Getenv("GSE_NOMERGE") != "", qsites: os.Getenv("GSE_QSITES") != "", noModel: os.Getenv("GSE_NOMODEL") != "",
 	}
 	return ex
 }
@@ -351,9 +362,15 @@ func (ex *Exec) runPath(fn *ssa.Function) (end pathEnd) {
 		stats.unk -= k0
 		stats.t -= t0
 		stats.mu.Unlock()
-		if r := recover(); r != nil {
+		r := recover()
+		ex.killGoroutines()
+		if r != nil {
 			if pe, ok := r.(pathEnd); ok {
 				end = pe
+				return
+			}
+			if _, ok := r.(killedGor); ok {
+				end = pathEnd{kind: endEngine, msg: "main goroutine killed"}
 				return
 			}
 			end = pathEnd{kind: endEngine, msg: fmt.Sprintf("executor panic: %v at %s", r, ex.stack())}
